@@ -18,7 +18,7 @@ from vlib.runner import CaseResult, Check, Part, exc_bucket, main
 @st.composite
 def cases(draw, tier):
     return dict(prog=draw(dsl.track_programs()), seed=draw(st.integers(0, 10**6)), backward=draw(st.sampled_from([True, True, True, False])),
-                warmup=draw(st.sampled_from([None, None, "backward", "forward-only"])))
+                warmup=draw(st.sampled_from([None, None, "backward", "forward-only"])), nnroot=draw(st.integers(0, 5)) == 0)
 
 
 def bitequal(a, b):
@@ -28,11 +28,11 @@ def bitequal(a, b):
         torch.equal(a.nan_to_num(0.0) if a.is_floating_point() else a, b.nan_to_num(0.0) if b.is_floating_point() else b)
 
 
-def run_module(m, inputs, backward, set_requires_grad):
+def run_module(m, inputs, backward, set_requires_grad, call=None):
     ins = {k: (v.clone().requires_grad_() if (v.is_floating_point() and set_requires_grad) else v.clone()) for k, v in inputs.items()}
     for p in m.parameters():
         p.grad = None
-    y = m(**ins)
+    y = call(m, ins) if call else m(**ins)
     outs = y if isinstance(y, tuple) else (y,)
     if backward:
         loss = sum(o.sum() for o in outs if o.is_floating_point() and o.requires_grad)
@@ -72,17 +72,27 @@ def run(c) -> CaseResult:
     feats = features(prog)
     res.labels += feats + (["backward"] if c["backward"] else ["forward-only"])
     m = dsl.build_module(prog, c["seed"])
+    call = None
+    if c.get("nnroot"):  # the program behind a root whose class is defined in torch.nn
+        m = dsl.nn_root(m)
+        res.labels.append("root=nn.Sequential(program)")
+
+        def call(mod, d):
+            return dsl.call(mod, prog, d, True)
     src = m._verif_source
     inputs = dsl.make_inputs(prog, c["seed"])
-    outs0, pg0, ig0 = run_module(m, inputs, c["backward"], True)
+    # track_scales (documented) sets requires_grad on the float *tensors* it is called with; behind the nn.Sequential root the
+    # arguments travel as one tuple, which it does not look into - there the harness sets the flag itself, as a caller would
+    own_rg = bool(c.get("nnroot"))
+    outs0, pg0, ig0 = run_module(m, inputs, c["backward"], True, call)
     # ---- (a) bit-identical outputs and gradients
     try:
         tm = track_scales(m)
         if c.get("warmup"):
             # an earlier call of the same tracked module (other inputs): the metrics must describe the *last* call only
-            run_module(tm, dsl.make_inputs(prog, c["seed"] + 1), c["warmup"] == "backward", False)
+            run_module(tm, dsl.make_inputs(prog, c["seed"] + 1), c["warmup"] == "backward", own_rg, call)
             res.labels.append("second-call-after-" + c["warmup"])
-        outs1, pg1, ig1 = run_module(tm, inputs, c["backward"], False)
+        outs1, pg1, ig1 = run_module(tm, inputs, c["backward"], own_rg, call)
         graph = tm.scales_graph()
     except Exception as e:  # noqa: BLE001
         res.fail(exc_bucket("C18.raises", e).replace("outside-library", "via-dynamo")[:300], f"{type(e).__name__}: {str(e)[:300]}\n{src}")
@@ -112,7 +122,7 @@ def run(c) -> CaseResult:
             if grad_clause("input", k, ig0[k], ig1.get(k)):
                 break
     # ---- (b) metrics == statistics of independently captured tensors
-    store, graphs, _, _ = tracking.capture(m, inputs, backward=c["backward"])
+    store, graphs, _, _ = tracking.capture(m, inputs, backward=c["backward"], call=call)
     names = [n.name for n in graph.nodes]
     if len(graphs) != 1 or names != [n.name for n in graphs[0].graph.nodes]:
         res.fail("C18.graph-differs", f"scales_graph() nodes {names[:8]}... differ from the graph Dynamo captures for the same module\n{src}")
